@@ -344,6 +344,167 @@ Section Flm.
       replace (i0 + S k0 - S k0) with i0 by lia. replace (j0 + S k0 - S k0) with j0 by lia. exact Hr. }
     specialize (B4 (i0 + S k0) (j0 + S k0) (S k0) ltac:(lia) He). unfold mSize in *. lia.
   Qed.
+  (* ---------- which of the longest runs: the one that ends first (rows, then columns) ---------- *)
+  Lemma flm_scan_first i : forall row j0 best,
+    let best' := flm_scan i j0 row best in
+    (best' = best /\ forall t, t < List.length row -> nth t row 0 <= mSize best)
+    \/ (exists t, t < List.length row /\ mSize best < nth t row 0
+                  /\ best' = (S i - nth t row 0, S (j0 + t) - nth t row 0, nth t row 0)
+                  /\ (forall t', t' < t -> nth t' row 0 < nth t row 0)
+                  /\ (forall t', t' < List.length row -> nth t' row 0 <= nth t row 0)).
+  Proof.
+    induction row as [|k row IH]; intros j0 best.
+    - left. split; [reflexivity | intros t Ht; cbn in Ht; lia].
+    - cbn [flm_scan]. cbv zeta.
+      match goal with |- context [flm_scan i (S j0) row ?x] => remember x as b1 eqn:Eb1 end.
+      specialize (IH (S j0) b1). cbv zeta in IH.
+      set (best' := flm_scan i (S j0) row b1) in *. clearbody best'.
+      destruct (Nat.ltb_spec (mSize best) k) as [Hlt|Hge].
+      + (* the entry of this column becomes the best *)
+        assert (Hs : mSize b1 = k) by (subst b1; reflexivity).
+        right. destruct IH as [[E1 E2] | (t & Ht & Hgt & E & P1 & P2)].
+        * exists 0. cbn [nth List.length]. rewrite Nat.add_0_r.
+          split; [lia|]. split; [exact Hlt|]. split; [congruence|]. split; [intros t' Ht'; lia|].
+          intros t' Ht'. destruct t' as [|t']; [lia|]. specialize (E2 t' ltac:(lia)). lia.
+        * exists (S t). cbn [nth List.length]. split; [lia|]. split; [lia|].
+          split; [rewrite E; replace (j0 + S t) with (S j0 + t) by lia; reflexivity|]. split.
+          -- intros t' Ht'. destruct t' as [|t']; [lia | apply P1; lia].
+          -- intros t' Ht'. destruct t' as [|t']; [lia | apply P2; lia].
+      + subst b1. destruct IH as [[E1 E2] | (t & Ht & Hgt & E & P1 & P2)].
+        * left. split; [exact E1|]. intros t Ht. destruct t as [|t]; cbn [nth]; [lia | apply E2; cbn in Ht; lia].
+        * right. exists (S t). cbn [nth List.length]. split; [lia|]. split; [exact Hgt|].
+          split; [rewrite E; replace (j0 + S t) with (S j0 + t) by lia; reflexivity|]. split.
+          -- intros t' Ht'. destruct t' as [|t']; [lia | apply P1; lia].
+          -- intros t' Ht'. destruct t' as [|t']; [lia | apply P2; lia].
+  Qed.
+
+  Definition best_first (i : nat) (best : mtch) : Prop :=
+    (mSize best = 0 -> best = (0, 0, 0))
+    /\ (0 < mSize best -> mA best + mSize best <= i)
+    /\ forall i' j, i' <= i -> 0 < mSize best -> ends i' j (mSize best) ->
+        mA best + mSize best < i' \/ (mA best + mSize best = i' /\ mB best + mSize best <= j).
+
+  Lemma best_step i x prev best :
+    nth_error A i = Some x -> row_ok i prev -> best_ok i best -> best_first i best ->
+    let row := flm_row T eqb x B 0 prev in
+    best_ok (S i) (flm_scan i 0 row best) /\ best_first (S i) (flm_scan i 0 row best).
+  Proof.
+    intros Hx Hprev Hbest Hfirst row.
+    assert (Hrow := row_ok_step i x prev Hx Hprev). fold row in Hrow.
+    assert (HlenA : S i <= List.length A) by (apply nth_error_Some; congruence).
+    assert (HlenR : List.length row = List.length B) by apply flm_row_length.
+    destruct Hbest as (H1 & H2 & H3 & H4). destruct Hfirst as (Z & E & F).
+    destruct (flm_scan_first i row 0 best) as [[S1 S2] | (t & Ht & Hgt & S3 & P1 & P2)].
+    - (* no update *)
+      rewrite S1. split.
+      + repeat split; try assumption. intros i' j k Hi' He.
+        destruct (Nat.eq_dec i' (S i)) as [->|Hne]; [|apply (H4 i' j k); [lia | exact He]].
+        destruct j as [|j]; [apply ends_col0 in He; lia|].
+        apply Hrow in He. destruct (Nat.lt_ge_cases j (List.length row)) as [Hlt|Hge].
+        * specialize (S2 j Hlt). lia.
+        * rewrite nth_overflow in He by exact Hge. lia.
+      + split; [exact Z|]. split; [intro Hp; specialize (E Hp); lia|].
+        intros i' j Hi' Hp He. destruct (Nat.eq_dec i' (S i)) as [->|Hne].
+        * left. specialize (E Hp). lia.
+        * apply F; [lia | exact Hp | exact He].
+    - (* updated at column t *)
+      assert (He : ends (S i) (S t) (nth t row 0)) by (apply Hrow; lia).
+      destruct He as (E1 & E2 & E3).
+      rewrite S3. cbn [Nat.add] in *. unfold best_ok, best_first, mA, mB, mSize in *. cbn [fst snd] in *.
+      split.
+      + repeat split; [lia | lia | exact E3 |].
+        intros i' j k Hi' He. destruct (Nat.eq_dec i' (S i)) as [->|Hne].
+        * destruct j as [|j]; [apply ends_col0 in He; lia|].
+          apply Hrow in He. destruct (Nat.lt_ge_cases j (List.length row)) as [Hlt|Hge].
+          -- specialize (P2 j Hlt). lia.
+          -- rewrite nth_overflow in He by exact Hge. lia.
+        * specialize (H4 i' j k ltac:(lia) He). lia.
+      + split; [intro Hz; lia|]. split; [intros _; lia|].
+        intros i' j Hi' Hp He. destruct (Nat.eq_dec i' (S i)) as [->|Hne].
+        * right. split; [lia|]. destruct j as [|j]; [apply ends_col0 in He; lia|].
+          apply Hrow in He. destruct (Nat.lt_ge_cases j t) as [Hlt|Hge]; [specialize (P1 j Hlt); lia | lia].
+        * specialize (H4 i' j _ ltac:(lia) He). lia.
+  Qed.
+
+  Lemma flm_rows_first : forall aw i prev best,
+    aw = skipn i A -> row_ok i prev -> best_ok i best -> best_first i best ->
+    best_ok (List.length A) (flm_rows T eqb aw i B prev best)
+    /\ best_first (List.length A) (flm_rows T eqb aw i B prev best).
+  Proof.
+    induction aw as [|x aw IH]; intros i prev best Haw Hprev Hbest Hfirst; cbn [flm_rows].
+    - assert (Hlen : List.length A <= i).
+      { assert (H : List.length (skipn i A) = 0) by (rewrite <- Haw; reflexivity).
+        rewrite skipn_length in H. lia. }
+      destruct (Nat.eq_dec i (List.length A)) as [->|Hne]; [split; assumption|].
+      (* i beyond the end cannot happen with a non-empty history; handle it anyway *)
+      destruct Hbest as (H1 & H2 & H3 & H4). destruct Hfirst as (Z & E & F). split.
+      + repeat split; try assumption. intros i' j k Hi' He. apply (H4 i' j k); [lia | exact He].
+      + split; [exact Z|]. split.
+        * intro Hp. lia.
+        * intros i' j Hi' Hp He. apply F; [lia | exact Hp | exact He].
+    - symmetry in Haw. apply skipn_cons_inv in Haw. destruct Haw as [Hx Haw].
+      destruct (best_step i x prev best Hx Hprev Hbest Hfirst) as [B1 B2].
+      apply (IH (S i) (flm_row T eqb x B 0 prev)); [symmetry; exact Haw | exact (row_ok_step i x prev Hx Hprev) | exact B1 | exact B2].
+  Qed.
+
+  (* with a longest run in hand the two extension loops do nothing *)
+  Lemma flm_back_noop i j K :
+    (forall i0 j0 k0, run A B i0 j0 k0 -> k0 <= K) -> run A B i j K ->
+    flm_back T eqb A B i j K = (i, j, K).
+  Proof.
+    intros Hmax Hr. destruct i as [|i]; [reflexivity|]. destruct j as [|j]; [reflexivity|].
+    cbn [flm_back]. destruct (eqat eqb A B i j) eqn:He; [|reflexivity].
+    exfalso. assert (Hr' : run A B i j (S K)).
+    { intros t Ht. destruct t as [|t]; [rewrite !Nat.add_0_r; exact He|].
+      specialize (Hr t ltac:(lia)).
+      replace (i + S t) with (S i + t) by lia. replace (j + S t) with (S j + t) by lia. exact Hr. }
+    specialize (Hmax _ _ _ Hr'). lia.
+  Qed.
+
+  Lemma flm_fwd_noop rem i j K :
+    (forall i0 j0 k0, run A B i0 j0 k0 -> k0 <= K) -> run A B i j K ->
+    flm_fwd T eqb A B rem i j K = K.
+  Proof.
+    intros Hmax Hr. destruct rem as [|rem]; [reflexivity|]. cbn [flm_fwd].
+    destruct ((j + K <? List.length B) && eqat eqb A B (i + K) (j + K)) eqn:Hc; [|reflexivity].
+    exfalso. apply andb_prop in Hc. destruct Hc as [_ He].
+    assert (Hr' : run A B i j (S K)) by (apply run_snoc; split; assumption).
+    specialize (Hmax _ _ _ Hr'). lia.
+  Qed.
+
+  Lemma flm_win_first :
+    let m := flm_win T eqb A B in
+    (mSize m = 0 -> mA m = 0 /\ mB m = 0)
+    /\ forall i0 j0, 0 < mSize m -> run A B i0 j0 (mSize m) ->
+        mA m < i0 \/ (mA m = i0 /\ mB m <= j0).
+  Proof.
+    assert (H0 : best_ok 0 (0, 0, 0)).
+    { unfold best_ok, mA, mB, mSize; simpl. repeat split; try lia; [apply run_0|].
+      intros i' j k Hi' (He & _). lia. }
+    assert (F0 : best_first 0 (0, 0, 0)).
+    { unfold best_first, mSize. cbn [snd]. split; [reflexivity|]. split; intros; lia. }
+    destruct (flm_rows_first A 0 [] (0, 0, 0) eq_refl row_ok_init H0 F0) as [Hb Hf].
+    unfold flm_win.
+    set (best := flm_rows T eqb A 0 B [] (0, 0, 0)) in *. clearbody best.
+    destruct Hb as (B1 & B2 & B3 & B4). destruct Hf as (Z & E & F).
+    assert (Hmax : forall i0 j0 k0, run A B i0 j0 k0 -> k0 <= mSize best).
+    { intros i0 j0 k0 Hr. destruct k0 as [|k0]; [lia|].
+      assert (Hbd := run_bounds _ _ _ _ _ (Nat.lt_0_succ k0) Hr).
+      apply (B4 (i0 + S k0) (j0 + S k0) (S k0)); [lia|].
+      unfold ends. repeat split; try lia.
+      replace (i0 + S k0 - S k0) with i0 by lia. replace (j0 + S k0 - S k0) with j0 by lia. exact Hr. }
+    rewrite (flm_back_noop _ _ _ Hmax B3), (flm_fwd_noop _ _ _ _ Hmax B3).
+    assert (Em : (mA best, mB best, mSize best) = best) by (destruct best as [[? ?] ?]; reflexivity).
+    rewrite Em. cbv zeta. split.
+    - intro Hz. rewrite (Z Hz). split; reflexivity.
+    - intros i0 j0 Hp Hr.
+      assert (Hbd := run_bounds _ _ _ _ _ Hp Hr).
+      assert (He : ends (i0 + mSize best) (j0 + mSize best) (mSize best)).
+      { unfold ends. repeat split; try lia.
+        replace (i0 + mSize best - mSize best) with i0 by lia.
+        replace (j0 + mSize best - mSize best) with j0 by lia. exact Hr. }
+      destruct (F (i0 + mSize best) (j0 + mSize best) ltac:(lia) Hp He) as [Hl | [Hl1 Hl2]]; lia.
+  Qed.
 End Flm.
 
 Arguments run {T}.
@@ -2387,3 +2548,128 @@ Section FinalLists.
       + exact (context_lines string String.eqb a b hs Hh).
   Qed.
 End FinalLists.
+
+(* ================================================================== findLongestMatch: which longest block *)
+Section Earliest.
+  Variable T : Type.
+  Variable eqb : T -> T -> bool.
+  Variables a b : list T.
+
+  Theorem flm_earliest alo ahi blo bhi :
+    alo <= ahi <= List.length a -> blo <= bhi <= List.length b ->
+    let m := find_longest_match eqb a b alo ahi blo bhi in
+    (mSize m = 0 -> mA m = alo /\ mB m = blo)
+    /\ forall i j, alo <= i -> i + mSize m <= ahi -> blo <= j -> j + mSize m <= bhi ->
+       0 < mSize m -> run eqb a b i j (mSize m) ->
+       mA m < i \/ (mA m = i /\ mB m <= j).
+  Proof.
+    intros Ha Hb. unfold find_longest_match.
+    destruct (flm_win_first T eqb (sub a alo (ahi - alo)) (sub b blo (bhi - blo))) as [W1 W2].
+    set (w := flm_win T eqb (sub a alo (ahi - alo)) (sub b blo (bhi - blo))) in *. clearbody w.
+    cbv zeta.
+    change (mSize (alo + mA w, blo + mB w, mSize w)) with (mSize w).
+    change (mA (alo + mA w, blo + mB w, mSize w)) with (alo + mA w).
+    change (mB (alo + mA w, blo + mB w, mSize w)) with (blo + mB w). split.
+    - intro Hz. destruct (W1 Hz) as [-> ->]. lia.
+    - intros i j H1 H2 H3 H4 Hp Hr.
+      assert (Hr' := run_to_sub T eqb a b alo (ahi - alo) blo (bhi - blo) i j (mSize w)
+                       H1 ltac:(lia) H3 ltac:(lia) Hr).
+      destruct (W2 _ _ Hp Hr') as [Hl | [Hl1 Hl2]]; lia.
+  Qed.
+
+  Theorem flm_firstb_holds alo ahi blo bhi :
+    alo <= ahi <= List.length a -> blo <= bhi <= List.length b ->
+    flm_firstb eqb a b alo ahi blo bhi (find_longest_match eqb a b alo ahi blo bhi) = true.
+  Proof.
+    intros Ha Hb. destruct (flm_earliest alo ahi blo bhi Ha Hb) as [E1 E2].
+    destruct (flm_run T eqb a b alo ahi blo bhi Ha Hb) as (F1 & F2 & F3 & F4 & _).
+    set (m := find_longest_match eqb a b alo ahi blo bhi) in *. clearbody m.
+    unfold flm_firstb. destruct (Nat.eqb_spec (mSize m) 0) as [Hz|Hnz].
+    - destruct (E1 Hz) as [-> ->]. rewrite !Nat.eqb_refl. reflexivity.
+    - apply forallb_forall. intros i Hi. apply in_seq in Hi.
+      apply forallb_forall. intros j Hj. apply in_seq in Hj.
+      destruct (Nat.leb_spec (mSize m) (common_len eqb (sub a i (ahi - i)) (sub b j (bhi - j)))) as [Hle|Hgt];
+        [|reflexivity].
+      cbn [negb orb].
+      destruct (common_len_spec T eqb (sub a i (ahi - i)) (sub b j (bhi - j))) as (C1 & C2 & C3).
+      rewrite sub_length in C1 by lia. rewrite sub_length in C2 by lia.
+      apply run_of_sub in C3. rewrite !Nat.add_0_r in C3.
+      assert (Hr : run eqb a b i j (mSize m)) by (intros t Ht; apply C3; lia).
+      destruct (E2 i j ltac:(lia) ltac:(lia) ltac:(lia) ltac:(lia) ltac:(lia) Hr) as [Hl | [Hl1 Hl2]].
+      + destruct (Nat.ltb_spec (mA m) i); [reflexivity | lia].
+      + destruct (Nat.ltb_spec (mA m) i); [reflexivity|].
+        cbn [orb]. rewrite (proj2 (Nat.eqb_eq _ _) Hl1). apply Nat.leb_le. exact Hl2.
+  Qed.
+End Earliest.
+
+Section SubRun.
+  Variable T : Type.
+  Variable eqb : T -> T -> bool.
+  Hypothesis eqb_spec : forall x y, eqb x y = true <-> x = y.
+  Variables a b : list T.
+
+  (* equal slices that lie inside both lists are a common run *)
+  Lemma sub_eq_run i j k :
+    i + k <= List.length a -> j + k <= List.length b -> sub a i k = sub b j k -> run eqb a b i j k.
+  Proof.
+    intros Hi Hj Hs t Ht. unfold eqat.
+    assert (Ea : nth_error (sub a i k) t = nth_error a (i + t))
+      by (rewrite nth_error_sub; destruct (Nat.ltb_spec t k); [reflexivity | lia]).
+    assert (Eb : nth_error (sub b j k) t = nth_error b (j + t))
+      by (rewrite nth_error_sub; destruct (Nat.ltb_spec t k); [reflexivity | lia]).
+    rewrite <- Ea, <- Eb, Hs.
+    assert (Hlt : t < List.length (sub b j k)) by (rewrite sub_length; lia).
+    apply nth_error_Some in Hlt.
+    destruct (nth_error (sub b j k) t) as [x|]; [apply eqb_spec; reflexivity | congruence].
+  Qed.
+
+  Theorem flm_earliest_sub alo ahi blo bhi :
+    alo <= ahi <= List.length a -> blo <= bhi <= List.length b ->
+    let m := find_longest_match eqb a b alo ahi blo bhi in
+    (mSize m = 0 -> mA m = alo /\ mB m = blo)
+    /\ forall i j, alo <= i -> i + mSize m <= ahi -> blo <= j -> j + mSize m <= bhi ->
+       0 < mSize m -> sub a i (mSize m) = sub b j (mSize m) ->
+       mA m < i \/ (mA m = i /\ mB m <= j).
+  Proof.
+    intros Ha Hb. destruct (flm_earliest T eqb a b alo ahi blo bhi Ha Hb) as [E1 E2].
+    split; [exact E1|]. intros i j H1 H2 H3 H4 Hp Hs.
+    apply (E2 i j H1 H2 H3 H4 Hp). apply sub_eq_run; [lia | lia | exact Hs].
+  Qed.
+End SubRun.
+
+(* ================================================================== statements as used in props/C20.v *)
+Section ForProps.
+  Variable T : Type.
+  Variable eqb : T -> T -> bool.
+  Hypothesis eqb_spec : forall x y, eqb x y = true <-> x = y.
+  Variables a b : list T.
+
+  Theorem flm_maximal_sub alo ahi blo bhi :
+    alo <= ahi <= List.length a -> blo <= bhi <= List.length b ->
+    forall i j k, alo <= i -> i + k <= ahi -> blo <= j -> j + k <= bhi ->
+    sub a i k = sub b j k -> k <= mSize (find_longest_match eqb a b alo ahi blo bhi).
+  Proof.
+    intros Ha Hb i j k H1 H2 H3 H4 Hs.
+    apply (flm_maximal T eqb a b alo ahi blo bhi Ha Hb i j k H1 H2 H3 H4).
+    apply (sub_eq_run T eqb eqb_spec); [lia | lia | exact Hs].
+  Qed.
+
+  Theorem flm_checked alo ahi blo bhi :
+    alo <= ahi <= List.length a -> blo <= bhi <= List.length b ->
+    flm_okb eqb a b alo ahi blo bhi (find_longest_match eqb a b alo ahi blo bhi) = true
+    /\ flm_maxb eqb a b alo ahi blo bhi (find_longest_match eqb a b alo ahi blo bhi) = true
+    /\ flm_firstb eqb a b alo ahi blo bhi (find_longest_match eqb a b alo ahi blo bhi) = true.
+  Proof.
+    intros Ha Hb. split; [|split].
+    - exact (flm_okb_holds T eqb eqb_spec a b alo ahi blo bhi Ha Hb).
+    - exact (flm_maxb_holds T eqb a b alo ahi blo bhi Ha Hb).
+    - exact (flm_firstb_holds T eqb a b alo ahi blo bhi Ha Hb).
+  Qed.
+
+  Theorem matching_blocks_nonadjacent :
+    exists l, matching_blocks eqb a b = Some (l ++ [(List.length a, List.length b, 0)]) /\ nonadj l.
+  Proof.
+    destruct (matching_blocks_nonadj T eqb a b) as (l & E & _ & H).
+    exists l. split; [exact E | exact H].
+  Qed.
+End ForProps.
